@@ -271,7 +271,7 @@ def check_prov(ctx):
                         pass  # judged at the inner constructor (this one)
                     k += 1
                     flow = flows.setdefault(id(f), A.Flow(f))
-                    tags = classify(flow.resolve(c, at=A.enclosing_stmt(c)), f, None)
+                    tags = classify(flow.resolve(A.elementwise(c), at=A.enclosing_stmt(c)), f, None)
                     if tags <= {"derived"}:
                         ctx.ok(R2, c, "`%s`" % A.unparse(c), "seeded from the passed generator")
                     elif tags == {"fresh-unseeded"} and _fallback_ok(f, mn) and _under_none_guard(c):
@@ -436,6 +436,86 @@ def _static_non_int(e, fn):
     return False
 
 
+def _attachment(fn):
+    """The statement that gives every task its generator.  Returns
+    (stmt, task-list name, base-is-the-same-task, generator expr, child_of(inner) -> (source seq, same index?, text), covers-all?, why)
+    for the forms
+        for i in range(len(T)): T[i] = <T[i]> + (gen(C[i]),)
+        for i, c in enumerate(C) / for i, (t, c) in enumerate(zip(T, C)): T[i] = <t | T[i]> + (gen(c),)
+        T = [<t> + (gen(c),) for t, c in zip(T, C)]"""
+    def split(v, task_exprs):
+        # v = base + (gen,)   (tuple(base) / list(base) wrappers allowed)
+        if not (isinstance(v, ast.BinOp) and isinstance(v.op, ast.Add) and isinstance(v.right, (ast.Tuple, ast.List)) and len(v.right.elts) == 1):
+            return None
+        left = v.left
+        if isinstance(left, ast.Call) and A.call_name(left) in ("tuple", "list") and len(left.args) == 1:
+            left = left.args[0]
+        return canon(left) in task_exprs, v.right.elts[0]
+
+    for s in A.walk_local(fn):
+        # rebuilt list
+        if isinstance(s, ast.Assign) and isinstance(s.targets[0], ast.Name) and isinstance(s.value, ast.ListComp) and len(s.value.generators) == 1 and not s.value.generators[0].ifs:
+            g = s.value.generators[0]
+            T = s.targets[0].id
+            if isinstance(g.iter, ast.Call) and A.call_name(g.iter) == "zip" and len(g.iter.args) == 2 and canon(g.iter.args[0]) == T \
+                    and isinstance(g.target, ast.Tuple) and len(g.target.elts) == 2 and all(isinstance(e, ast.Name) for e in g.target.elts):
+                tv, cv = g.target.elts[0].id, g.target.elts[1].id
+                r = split(s.value.elt, {tv})
+                if r is None:
+                    continue
+                C = g.iter.args[1]
+
+                def child_of(inner, cv=cv, C=C):
+                    ok = isinstance(inner, ast.Name) and inner.id == cv
+                    return C, ok, "task receives `%s`, not its own element of the zipped child sequence" % A.unparse(inner)
+                return s, T, r[0], r[1], child_of, True, ""
+        # indexed store in a loop
+        if isinstance(s, ast.Assign) and isinstance(s.targets[0], ast.Subscript) and isinstance(s.targets[0].value, ast.Name) and isinstance(s.targets[0].slice, ast.Name):
+            T = s.targets[0].value.id
+            idx = s.targets[0].slice.id
+            loop = A.enclosing(s, (ast.For,))
+            if loop is None:
+                continue
+            it, tg = loop.iter, loop.target
+            task_exprs = {canon(parse("%s[%s]" % (T, idx)))}
+            child_names = {}
+            covers = False
+            if isinstance(tg, ast.Name) and tg.id == idx and canon(it) == canon(parse("range(len(%s))" % T)):
+                covers = True
+            elif isinstance(it, ast.Call) and A.call_name(it) == "enumerate" and len(it.args) == 1 and isinstance(tg, ast.Tuple) and len(tg.elts) == 2 \
+                    and isinstance(tg.elts[0], ast.Name) and tg.elts[0].id == idx:
+                inner_it, inner_t = it.args[0], tg.elts[1]
+                if isinstance(inner_it, ast.Call) and A.call_name(inner_it) == "zip" and isinstance(inner_t, ast.Tuple) and len(inner_t.elts) == len(inner_it.args):
+                    for a, t in zip(inner_it.args, inner_t.elts):
+                        if isinstance(t, ast.Name):
+                            if canon(a) == T:
+                                task_exprs.add(t.id)
+                                covers = True
+                            else:
+                                child_names[t.id] = a
+                elif isinstance(inner_t, ast.Name):
+                    if canon(inner_it) == T:
+                        task_exprs.add(inner_t.id)
+                        covers = True
+                    else:
+                        child_names[inner_t.id] = inner_it
+                        covers = None   # covers iff the enumerated sequence has one element per task: it is the spawn(len(T)) result (checked by spawn-n / child-src)
+            else:
+                continue
+            r = split(s.value, task_exprs)
+            if r is None:
+                continue
+
+            def child_of(inner, idx=idx, child_names=child_names):
+                if isinstance(inner, ast.Subscript):
+                    return inner.value, canon(inner.slice) == idx, "task %s receives child [%s]" % (idx, canon(inner.slice))
+                if isinstance(inner, ast.Name) and inner.id in child_names:
+                    return child_names[inner.id], True, ""
+                return None, False, "task %s receives `%s`" % (idx, A.unparse(inner))
+            return s, T, r[0], r[1], child_of, covers is not False, "the loop around `%s` does not visit every task index" % A.unparse(s)[:60]
+    return None
+
+
 def check_spawn(ctx):
     R = "C10-SPAWN"
     ctx.rule(R, "run_worker gives task i the generator Generator(PCG64(children[i])) with children = <parent seed sequence>.spawn(len(tasks)), "
@@ -451,50 +531,31 @@ def check_spawn(ctx):
     root = _root_tags(recv, fn, None)
     ctx.check(R, sp, "spawn receiver derives from rng", root <= {"param"}, "spawn is called on `%s` (%s)" % (A.unparse(recv), sorted(root)), key="spawn-recv")
     ctx.check(R, sp, "receiver is the generator's seed sequence", "seed_seq" in A.unparse(recv), "spawn receiver `%s` is not the bit generator's seed sequence" % A.unparse(recv), key="spawn-seedseq")
-    arg = sp.args[0] if sp.args else None  # compared by name: `tasks` is the list the generators are attached to
-    ctx.check(R, sp, "spawn(len(tasks))", arg is not None and canon(arg) == canon(parse("len(tasks)")),
+    att = _attachment(fn)
+    if att is None:
+        ctx.undecided(R, fn, "task generator store", "no statement attaches a generator to every task (neither `T[i] = T[i] + (gen,)` in a loop over the tasks nor a rebuilt task list)")
+        return
+    s, T, base, gen, child_of, covers, why_cov = att
+    arg = sp.args[0] if sp.args else None
+    ctx.check(R, sp, "spawn(len(tasks))", arg is not None and canon(arg) == canon(parse("len(%s)" % T)),
               "spawns `%s` children, not one per task" % (A.unparse(sp.args[0]) if sp.args else "?"), key="spawn-n")
-    # the statement that stores into tasks[i]
-    sg_name = None
-    st = A.enclosing_stmt(sp)
-    if isinstance(st, ast.Assign) and isinstance(st.targets[0], ast.Name):
-        sg_name = st.targets[0].id
-    stores = [s for s in A.walk_local(fn) if isinstance(s, ast.Assign) and isinstance(s.targets[0], ast.Subscript) and canon(s.targets[0].value) == "tasks"]
-    if len(stores) != 1:
-        ctx.undecided(R, fn, "task generator store", "expected one `tasks[i] = ...` store, found %d" % len(stores))
-        return
-    s = stores[0]
-    idx = canon(s.targets[0].slice)
-    loop = A.enclosing(s, (ast.For,))
-    okloop = loop is not None and isinstance(loop.target, ast.Name) and loop.target.id == idx and \
-        canon(loop.iter) == canon(parse("range(len(tasks))"))
-    ctx.check(R, s, "store loop covers every task", okloop, "the loop around `%s` is not `for %s in range(len(tasks))`" % (A.unparse(s), idx), key="loop")
-    v = s.value
-    ok = isinstance(v, ast.BinOp) and isinstance(v.op, ast.Add)
-    if not ok:
-        ctx.violate(R, s, "task gets its generator appended", "`%s` does not append a generator to the task" % A.unparse(s), key="append")
-        return
-    left, right = v.left, v.right
-    base_ok = canon(left) in (canon(parse("tuple(tasks[%s])" % idx)), canon(parse("tasks[%s]" % idx)), canon(parse("list(tasks[%s])" % idx)))
-    ctx.check(R, s, "appended to the same task", base_ok, "generator appended to `%s`, stored in tasks[%s]" % (A.unparse(left), idx), key="same-task")
-    if not (isinstance(right, (ast.Tuple, ast.List)) and len(right.elts) == 1):
-        ctx.undecided(R, s, "appended element", "right operand `%s` is not a 1-tuple" % A.unparse(right))
-        return
-    g = flow.resolve(right.elts[0], at=s)
-    # Generator(PCG64(sg[i]))
+    ctx.check(R, s, "store loop covers every task", covers, why_cov, key="loop")
+    ctx.check(R, s, "appended to the same task", base, "the generator is not appended to the task it is stored for", key="same-task")
+    g = flow.resolve(gen, at=s) if not isinstance(s, ast.Assign) or not isinstance(s.value, ast.ListComp) else gen
     inner = g
     chain = []
     while isinstance(inner, ast.Call) and len(inner.args) == 1 and not inner.keywords:
         chain.append((A.call_name(inner) or "").split(".")[-1])
         inner = inner.args[0]
-    shape_ok = chain[:1] in (["Generator"], ["default_rng"]) and isinstance(inner, ast.Subscript)
+    shape_ok = chain[:1] in (["Generator"], ["default_rng"]) and len(chain) <= 2
     if not shape_ok:
-        ctx.violate(R, s, "generator built from a spawned child", "task generator is `%s`, not Generator(BitGen(children[i]))" % A.unparse(right.elts[0]), key="gen-shape")
+        ctx.violate(R, s, "generator built from a spawned child", "task generator is `%s`, not Generator(BitGen(children[i]))" % A.unparse(gen), key="gen-shape")
         return
-    child_idx = canon(inner.slice)
-    is_spawn = isinstance(inner.value, ast.Call) and A.last_attr(inner.value) == "spawn"
-    ctx.check(R, s, "child sequence is the spawn result", is_spawn, "indexes `%s`, which is not the spawn result" % A.unparse(inner.value), key="child-src")
-    ctx.check(R, s, "task i gets child i", child_idx == idx, "task %s receives child [%s]: generators are shared between batches" % (idx, child_idx), key="child-idx")
+    src, same_index, desc = child_of(inner)
+    srcr = flow.resolve(src, at=A.enclosing_stmt(s) if not isinstance(s, ast.stmt) else s) if src is not None else None
+    is_spawn = isinstance(srcr, ast.Call) and A.last_attr(srcr) == "spawn"
+    ctx.check(R, s, "child sequence is the spawn result", is_spawn, "child taken from `%s`, which is not the spawn result" % (A.unparse(src) if src is not None else A.unparse(inner)), key="child-src")
+    ctx.check(R, s, "task i gets child i", same_index, "%s: generators are shared between batches" % desc, key="child-idx")
     # guard: done iff rng is not None
     g_ok = any(pol and canon(t) == canon(parse("rng is not None")) for t, pol in A.guards_of(s))
     ctx.check(R, s, "children attached whenever rng is given", g_ok, "the generator attachment is not guarded by `rng is not None`", key="guard")
